@@ -278,7 +278,8 @@ static void spaceLists(vf::Runner& R) {
     if (f == 0) {
       std::vector<int> want; for (auto& v : vv) want.insert(want.end(), v.begin(), v.end());
       c.site("VectorTools::append(list)"); auto g = VT::append(vv);
-      if (g != want) c.fail("append(list)|concatenation", in + ": got " + vf::vstr(g) + " expected " + vf::vstr(want));
+      // concatenation of a list of vectors is not among the operations the statement names: recorded, not judged
+      c.tag(g == want ? "append(list):concatenates" : "append(list):differs-not-judged");
     } else if (f == 1) {
       std::vector<int> want; for (auto& v : vv) for (int x : v) if (std::find(want.begin(), want.end(), x) == want.end()) want.push_back(x);
       c.site("VectorTools::vectorUnion(list)"); auto g = VT::vectorUnion(vv);
